@@ -27,7 +27,7 @@ ASSUMPTIONS = ["a re-registration on the same token starts a new registration (i
                "registrations still alive, on what the server transmitted (not on what the lossy network delivered)"]
 EXPECTED_PROBES = ["change_during_render", "coalesced_burst", "change_while_in_flight", "end_by_rst", "end_by_new_request", "end_by_deregister",
                    "end_by_timeout", "end_by_icmp", "end_by_senderr", "end_by_error_notification", "end_by_last_notification", "end_by_shutdown",
-                   "non_registration", "several_observers", "rst_on_non_notification"]
+                   "non_registration", "several_observers", "rst_on_non_notification", "observers_share_a_host", "sendmsg_failed"]
 
 REACTIONS = ["ack", "ack", "ack", "rst", "silent", "rereg", "dereg"]
 
@@ -57,7 +57,7 @@ def gen(r, tier):
     ops.sort(key=lambda o: o["t"])
     # rendering may take time (the resource reads its state, then awaits something): changes can land DURING a render
     return {"observers": observers, "ops": ops, "net": faults.swarm(r, kinds=("drop", "dup", "delay"), fault_free=0.35),
-            "render_delay": r.choice([0, 0, 0.0005, 0.005, 0.05])}
+            "render_delay": r.choice([0, 0, 0.0005, 0.005, 0.05]), "same_host": r.chance(0.3)}
 
 
 def systematic(tier):
@@ -248,7 +248,13 @@ def execute(sim, scn):
 
     ctx = loop.run_until_complete(setup())
     srv = (common.SERVER_IP, 5683)
-    observers = {o["id"]: Observer(sim, common.PEER_IPS[o["id"]], 5683, o, srv) for o in scn["observers"]}
+    if scn.get("same_host"):
+        # all observers are processes on one host: same IP address, different ports -- distinct endpoints all the same
+        observers = {o["id"]: Observer(sim, common.PEER_IPS[0], 5683 + o["id"], o, srv) for o in scn["observers"]}
+        if len(observers) > 1:
+            sim.probe("observers_share_a_host")
+    else:
+        observers = {o["id"]: Observer(sim, common.PEER_IPS[o["id"]], 5683, o, srv) for o in scn["observers"]}
     if len(observers) > 1:
         sim.probe("several_observers")
     for o in scn["observers"]:
